@@ -5,25 +5,53 @@
     are C14's subject); spec: Attr/AttrSpec.v ([d_*] on [path -> option entry],
     [dl_*] on association lists — the form the correspondence check replays);
     proofs: Attr/AttrProofs.v.  The hash table is abstracted to path
-    resolution.  [anc_closed]: every attribute with a value has ancestors with a
-    value (true of every dictionary the library builds; preserved by all steps).
+    resolution in the tree model; Attr/AttrHash.v models [keycmp] and the bucket
+    chains and shows that the two agree for every hash function.
     The model follows the library with fixes 57..59 applied. *)
 From Coq Require Import NArith ZArith List Bool.
-From KdV Require Import Base.Wrap64 Attr.AttrBase Attr.AttrTree Attr.AttrSpec Attr.AttrProofs.
+From KdV Require Import Base.Wrap64 Attr.AttrBase Attr.AttrTree Attr.AttrSpec Attr.AttrProofs
+  Attr.AttrHash Attr.AttrHashProofs.
 Import ListNotations.
 Local Open Scope N_scope.
 
 (** Every history of sets (by path), clears (NIL) and refused sets, with
-    arbitrary keys, types and values, has on the tree the same statuses and the
-    same resulting dictionary as on the dictionary: [d_set] (the key holds the
-    value and is persistent, its ancestors have a value), [d_clear] (the key
-    and its subtree have none), unchanged when refused. *)
+    arbitrary keys, types and values, on ANY tree (also one where a directory
+    without a value has children with values, as [addrxlat] in a new context),
+    has the same statuses and the same resulting dictionary as on the
+    dictionary: [d_set] (the key holds the value and is persistent; the
+    directories above it get a value, from the parent upwards until one has
+    one already), [d_clear] (the key and its whole subtree have none, whether
+    or not the key itself had a value), unchanged when refused. *)
 Theorem C13_refines_dictionary : forall ops n,
-  anc_closed n ->
   fst (ttrace ops n) = fst (dtrace ops (dict_of n)) /\
   deq (dict_of (snd (ttrace ops n))) (snd (dtrace ops (dict_of n))).
 Proof. exact history_refines. Qed.
 Print Assumptions C13_refines_dictionary.
+
+(** The hash table.  [keycmp] answers 0 exactly when the attribute's template
+    keys, from itself upwards, are the components of the key (last first) and
+    the next ancestor has [dir]'s template — for every key made of dot-free
+    components that does not start with a dot. *)
+Theorem C13_keycmp_exact : forall comps ch dt,
+  valid comps ->
+  (keycmp ch dt (join_with DOT comps) = true <-> matches (rev comps) ch dt).
+Proof. exact keycmp_exact. Qed.
+Print Assumptions C13_keycmp_exact.
+
+(** For EVERY hash function (any assignment of paths to buckets, any collisions)
+    and any table order: looking a key up below [dir] returns the attribute
+    whose path is [dir] followed by the key's components if the table holds it,
+    and nothing otherwise — the lookup is path resolution, which is what
+    [Attr/AttrTree.v] uses. *)
+Theorem C13_lookup_any_hash : forall hash tmpl,
+  (forall a b, tmpl a = tmpl b -> a = b) ->
+  forall table dir key,
+  no_leading_dot key ->
+  lookup_hash hash tmpl table dir key =
+  if in_dec (list_eq_dec (list_eq_dec N.eq_dec)) (dir ++ split_on DOT key) table
+  then Some (dir ++ split_on DOT key) else None.
+Proof. exact lookup_hash_key. Qed.
+Print Assumptions C13_lookup_any_hash.
 
 (** reading by path is [d_get] of that dictionary ... *)
 Theorem C13_get_by_path : forall q s, get_at (O, q) s = d_get q (dict_of (base s)).
@@ -58,6 +86,15 @@ Theorem C13_set_elsewhere : forall p q v d,
   prefix q p = false -> d_get q (d_set p v d) = d_get q d.
 Proof. exact d_get_set_other. Qed.
 Print Assumptions C13_set_elsewhere.
+
+(** a set never takes anything from an ancestor: type, value and persistence
+    stay, and it has a value afterwards if it had one or the walk reached it *)
+Theorem C13_set_ancestors : forall p q v d e,
+  strict_prefix q p = true -> d q = Some e ->
+  d_set p v d q = Some {| e_ty := e_ty e; e_set := e_set e || inst_reach d q p;
+                          e_persist := e_persist e; e_val := e_val e |}.
+Proof. exact d_get_set_ancestor. Qed.
+Print Assumptions C13_set_ancestors.
 
 Theorem C13_clear_elsewhere : forall p q d,
   prefix p q = false -> d_get q (d_clear p d) = d_get q d.
@@ -157,12 +194,6 @@ Theorem C13_executable_spec_init : forall n, uniq n -> forall pre q,
 Proof. exact flatten_dict. Qed.
 Print Assumptions C13_executable_spec_init.
 
-(** [anc_closed] has a decidable sufficient condition; the check evaluates it on
-    the initial dictionary of every run *)
-Theorem C13_anc_closed_decidable : forall n, anc_okb n = true -> anc_closed n.
-Proof. exact anc_okb_sound. Qed.
-Print Assumptions C13_anc_closed_decidable.
-
 Theorem C13_uniq_decidable : forall n, uniqb n = true -> uniq n.
 Proof. exact uniqb_sound. Qed.
 Print Assumptions C13_uniq_decidable.
@@ -182,8 +213,31 @@ Example C13_nonvacuous_history :
   d_get [[100]] (dict_of n') = (KDUMP_OK, TNum, VNum 5).
 Proof. vm_compute. repeat split. Qed.
 
-Example C13_nonvacuous_closed : anc_okb ex_tree = true /\ uniqb ex_tree = true.
-Proof. vm_compute. split; reflexivity. Qed.
+Example C13_nonvacuous_uniq : uniqb ex_tree = true.
+Proof. vm_compute. reflexivity. Qed.
+
+(* a directory without a value above a directory with one (addrxlat / addrxlat.force in a
+   new context): a set below stops at the set directory, a clear of the unset one clears all *)
+Definition ex_open : anode :=
+  ANode [] TDir true false VNone
+    [ANode [97] TDir false false VNone
+       [ANode [102] TDir true false VNone [ANode [120] TNum false false VNone []]]].
+
+Example C13_nonvacuous_unset_ancestor :
+  let '(sts, n') := ttrace [([[97]; [102]; [120]], TNum, VNum 40)] ex_open in
+  d_get [[97]; [102]; [120]] (dict_of n') = (KDUMP_OK, TNum, VNum 40) /\
+  d_get [[97]] (dict_of n') = (ERR_NODATA, TNil, VNone) /\
+  let '(sts2, n2) := ttrace [([[97]], TNil, VNone)] n' in
+  sts2 = [KDUMP_OK] /\ d_get [[97]; [102]; [120]] (dict_of n2) = (ERR_NODATA, TNil, VNone) /\
+  d_get [[97]; [102]] (dict_of n2) = (ERR_NODATA, TNil, VNone).
+Proof. vm_compute. repeat split. Qed.
+
+Example C13_nonvacuous_keycmp :
+  (* attribute "K428" below dir (template 7): the key "K42" does not match, "K428" does *)
+  keycmp [([75;52;50;56], 1); ([108], 7); ([], 0)] 7 [75;52;50] = false /\
+  keycmp [([75;52;50;56], 1); ([108], 7); ([], 0)] 7 [75;52;50;56] = true /\
+  keycmp [([98], 2); ([97], 1); ([108], 7); ([], 0)] 7 [97;46;98] = true.
+Proof. vm_compute. repeat split. Qed.
 
 Example C13_nonvacuous_iter_reopen :
   listing (akids ex_tree) = [0%nat; 1%nat] /\
